@@ -151,6 +151,17 @@ class Ctx:
                     if a not in self.probes:
                         self.probes[a] = Node(a, id=f"probe{k}")
                         k += 1
+        # candidates created the way an editor does before asking where they go: Node(name, parent=P) - a back link only -
+        # with a child of their own; one name P's rule refuses, one it allows
+        self.linked = []
+        for n in self.nodes[:3]:
+            if n.name in nm:
+                allowed = ruleinfo.automata(nm[n.name]).names[:1]
+                for a in ["zzForeign"] + allowed:
+                    cand = Node(a, id=f"linked{k}", parent=n)
+                    cand.add_child(Node("zzInner", id=f"linked{k}i"))
+                    k += 1
+                    self.linked.append((n, cand))
         self.twin = self.root.copy()
         # a copy of an inner node: a detached tree whose root still carries its source's parent link
         self.inner = self.root.children[0].copy() if self.root.children else None
@@ -329,6 +340,16 @@ def op_insert_index(c):
     return out
 
 
+def op_insert_index_backlinked(c):
+    """candidates that carry a parent link to the node asked, but are not among its children"""
+    out = []
+    for n, cand in c.linked:
+        r = mrule.get_rule(n.name)
+        out.append(_call(lambda r=r, n=n, cand=cand: r.child_insert_index(n, cand)))
+        out.append(_call(lambda r=r, cand=cand: r.is_allowed_child(cand.name)))
+    return out
+
+
 def op_insert_index_attached(c):
     """where does an existing child belong?  (asking must not move it)"""
     out = []
@@ -367,6 +388,7 @@ OPS = [
     ("find_*_by_path*", op_paths), ("child_index/get_ancestry*", op_child_index_ancestry),
     ("list_attributes/attribute_value*", op_attributes), ("child_insert_index*", op_insert_index),
     ("child_insert_index(attached child)*", op_insert_index_attached),
+    ("child_insert_index(candidate with a parent link)*", op_insert_index_backlinked),
     ("is_allowed_child/_is_in_path*", op_rule_queries), ("is_equal(copy)", op_is_equal),
 ]
 OPD = dict(OPS)
@@ -374,7 +396,10 @@ OPD = dict(OPS)
 
 def snapshot(c):
     roots = [c.root, c.twin] + ([c.inner] if c.inner is not None else [])
-    return gtree.identity_snapshot(roots, extra_nodes=list(c.probes.values()))
+    extra = list(c.probes.values())
+    for _, cand in c.linked:
+        extra += [cand] + list(cand.children)
+    return gtree.identity_snapshot(roots, extra_nodes=extra)
 
 
 def run_sequence(g, seq, baseline, case):
